@@ -119,7 +119,9 @@ func main() {
 		run.print(os.Stdout, *verbose)
 		e.cache.save()
 		if run.failed() {
-			os.RemoveAll(work)
+			if !*keep {
+				os.RemoveAll(work)
+			}
 			os.Exit(1)
 		}
 	case "claims":
@@ -504,10 +506,16 @@ func (e *Engine) solveAll(obs []*Obligation, stats *SolverStats) {
 				}(first.Name)
 				name := fmt.Sprintf("%x", hashString(q))
 				ckey := ""
-				if e.cache != nil && first.Kind != "reach" {
+				if e.cache != nil {
 					ckey = proofKey(q)
+					if first.Kind == "reach" {
+						ckey = "reach:" + ckey
+					}
 					if e.cache.has(ckey) {
 						res := SolveResult{Status: "unsat", Solver: "cache"}
+						if first.Kind == "reach" {
+							res.Status = "sat" // a cached reachability verdict: the path condition was not refuted
+						}
 						for _, o := range group {
 							o.Result = res
 						}
@@ -515,7 +523,14 @@ func (e *Engine) solveAll(obs []*Obligation, stats *SolverStats) {
 					}
 				}
 				defer func() {
-					if ckey != "" && group[0].Result.Status == "unsat" {
+					if ckey == "" {
+						return
+					}
+					if first.Kind == "reach" {
+						if group[0].Result.Status != "unsat" && group[0].Result.Status != "error" {
+							e.cache.add(ckey)
+						}
+					} else if group[0].Result.Status == "unsat" {
 						e.cache.add(ckey)
 					}
 				}()
